@@ -16,21 +16,35 @@ open Hrano Hrano.Bytes Hrano.Report
 inductive Piece where
   | lit (b : UInt8)
   | str (left : Bool) (width : Nat)     -- `%Ns` (left = false) or `%-Ns` (left = true); width 0: plain `%s`
+  | flt (width prec : Nat)              -- `%N.Pf` (also written `%0.Pf` when N = 0)
   | bad                                 -- a verb this model does not know
   deriving DecidableEq, Repr
 
-/-- the decimal width in front of the verb letter -/
+/-- an argument of `fmt.Sprintf`: a string or a number -/
+inductive Arg where
+  | s (b : Bytes)
+  | q (v : Q)
+
+/-- a decimal number in front of the rest -/
 def width : Bytes → Nat → Nat × Bytes
   | b :: rest, acc => if 48 ≤ b.toNat ∧ b.toNat ≤ 57 then width rest (acc * 10 + (b.toNat - 48)) else (acc, b :: rest)
   | [], acc => (acc, [])
 
-/-- after `%`: optional `-`, optional width, then `s` -/
+/-- after `%`: optional `-`, optional width (a zero flag in front of a real width is not modelled), optional `.precision`,
+    then `s` or `f` -/
 def verb (s : Bytes) : Piece × Bytes :=
   let (left, s1) := match s with
     | 45 :: r => (true, r)
     | r => (false, r)
+  let zeroPadded := match s1 with
+    | 48 :: d :: _ => 48 ≤ d.toNat ∧ d.toNat ≤ 57
+    | _ => False
   match width s1 0 with
-  | (w, 115 :: r) => (.str left w, r)
+  | (w, 115 :: r) => (if zeroPadded then .bad else .str left w, r)
+  | (w, 46 :: r) =>
+    (match width r 0 with
+     | (p, 102 :: r') => (if zeroPadded || left then .bad else .flt w p, r')
+     | (_, r') => (.bad, r'))
   | (_, r) => (.bad, r)
 
 def pieces : Nat → Bytes → List Piece
@@ -41,20 +55,35 @@ def pieces : Nat → Bytes → List Piece
 
 def parseFmt (f : Bytes) : List Piece := pieces f.length f
 
-/-- `fmt.Sprintf` over string arguments (a missing argument prints `%!s(MISSING)`, an unknown verb is kept out of the
-    model: both are reported as `bad` and rendered as nothing; the theorems show neither occurs in the current formats) -/
-def render : List Piece → List Bytes → Bytes
+/-- `fmt.Sprintf` over string and number arguments.  A missing argument, a verb that does not fit its argument and an unknown
+    verb print `%!…` in Go; they are outside this model (rendered as nothing) and `wellFormed` / `wellTyped` show that none
+    occurs in the current formats. -/
+def render : List Piece → List Arg → Bytes
   | [], _ => []
   | .lit b :: ps, args => b :: render ps args
-  | .str left w :: ps, a :: args => (if left then padRight 32 w a else padLeft 32 w a) ++ render ps args
+  | .str left w :: ps, .s a :: args => (if left then padRight 32 w a else padLeft 32 w a) ++ render ps args
+  | .flt w p :: ps, .q v :: args => Num.fmtFixedW w p v ++ render ps args
+  | .str _ _ :: ps, _ :: args => render ps args
+  | .flt _ _ :: ps, _ :: args => render ps args
   | .str _ _ :: ps, [] => render ps []
+  | .flt _ _ :: ps, [] => render ps []
   | .bad :: ps, args => render ps args
 
-def sprintf (f : Bytes) (args : List Bytes) : Bytes := render (parseFmt f) args
+/-- general form -/
+def sprintfA (f : Bytes) (args : List Arg) : Bytes := render (parseFmt f) args
+
+/-- string arguments only -/
+def sprintf (f : Bytes) (args : List Bytes) : Bytes := render (parseFmt f) (args.map .s)
 
 def wellFormed (f : Bytes) (nargs : Nat) : Bool :=
   let ps := parseFmt f
-  !ps.contains .bad && (ps.filter (fun p => match p with | .str _ _ => true | _ => false)).length == nargs
+  !ps.contains .bad && (ps.filter (fun p => match p with | .str _ _ => true | .flt _ _ => true | _ => false)).length == nargs
+
+/-- the verbs of a format, in order: `true` for a number verb, `false` for a string verb; `none` when a verb is not modelled -/
+def signature (f : Bytes) : Option (List Bool) :=
+  let ps := parseFmt f
+  if ps.contains .bad then none
+  else some (ps.filterMap (fun p => match p with | .str _ _ => some false | .flt _ _ => some true | _ => none))
 
 /-- the default template over the regenerated formats -/
 def renderDefaultT (cfg : RCfg) (d : LogDay) (db : Book) : Bytes :=
